@@ -143,6 +143,8 @@ def c04(run):
     # the selector and the target as tokens: every token of the full vocabulary in either place (other spellings of the value one
     # -- 01, 0x1 -- are not the selector '1'); accept/reject decided by the grammar
     run.gen_replay("Gen_Gram", gen_cfg(dict(Scope="bindsel", MaxLen=1)), ["replay-gram"], "C04:bindsel")
+    # the bound type's name as a late constant (index across 240/241, 255/256, two- and three-byte operands)
+    run.gen_replay("Gen_Total", cfg(constants=dict(Scope="bindscale", MaxLen=1), invariants=("Emit",)), ["replay-total"], "C04:late")
     tv_vm(run, "C04:vm", 500 if run.quick else 5000, seed_off=4)
     run.exhaustive = True
 
